@@ -221,14 +221,13 @@ class DesignElab(Elaboratable):
                             emit(m, st[1]["st"])
                     else:
                         meth = self.methods[b.name]
-                        kw = {}
+                        # flags are passed explicitly in both polarities: "nonexclusive=False" must mean exclusive
+                        kw = {"nonexclusive": bool(b.nx)}
                         if b.nx:
-                            kw["nonexclusive"] = True
                             if b.i:
                                 kw["combiner"] = lambda mm, args, runs: {
                                     "a": Cat(args[j].a & runs[j] for j in range(len(args))).any()}
-                        if b.sc:
-                            kw["single_caller"] = True
+                        kw["single_caller"] = bool(b.sc)
                         if b.val:
                             kw["validate_arguments"] = lambda a: a == 1
                         out = Signal(meth.layout_out, name=f"out_{b.name}")
